@@ -88,35 +88,38 @@ def compare(sent, got):
 
 
 def ownership_gaps(obs, marks):
-    """name -> set of rounds in which the name had no owner at some moment (round -1 = set-up).
-    Also returns name -> {round: number of owner changes}."""
-    owner = {}
-    gaps = collections.defaultdict(set)
-    changes = collections.defaultdict(collections.Counter)
-    seen = set()
+    """From the observer's NameOwnerChanged stream: name -> set of rounds in which the name had no owner at some moment
+    (round -1 = set-up), name -> {round: number of owner changes}, and the set of names that ever had an owner."""
     bounds = [0] + list(marks)
-    for r in range(-1, len(marks) - 1):
-        lo, hi = bounds[r + 1], bounds[r + 2]
-        start_owner = dict(owner)
-        for m in obs[lo:hi]:
+    nrounds = len(marks) - 1
+    events = collections.defaultdict(list)
+    first_old = {}
+    for r in range(-1, nrounds):
+        for m in obs[bounds[r + 1]:bounds[r + 2]]:
             k = m.known()
             if m.type == 4 and k.get(7) == BUS and k.get(3) == b"NameOwnerChanged" and len(m.body) == 3:
                 name, old, new = m.body
-                seen.add(name)
-                if name not in start_owner:
-                    start_owner[name] = old
-                owner[name] = new
-                changes[name][r] += 1
-                if new == b"" or old == b"":
-                    gaps[name].add(r)
-        for name in seen:
-            if start_owner.get(name, b"") == b"":
+                first_old.setdefault(name, old)
+                events[r].append((name, old, new))
+    owner = dict(first_old)
+    gaps = collections.defaultdict(set)
+    changes = collections.defaultdict(collections.Counter)
+    for r in range(-1, nrounds):
+        for name, o in owner.items():
+            if o == b"":
                 gaps[name].add(r)
-    return gaps, changes, seen
+        for name, old, new in events[r]:
+            owner[name] = new
+            changes[name][r] += 1
+            if new == b"":
+                gaps[name].add(r)
+    return gaps, changes, set(first_old)
 
 
-def judge(tokens, views, obs, marks):
-    """Returns (violations, stats, sigs): violations = list of (key, what, token or None)."""
+def judge(tokens, views, obs, marks, unreliable=()):
+    """Returns (violations, stats, sigs): violations = list of (key, what, token or None, view idx or None).
+    unreliable: indices of views whose own NameAcquired/NameLost stream is known to be incomplete (the bus logged that it
+    dropped a signal it had originated for them); the recipient-is-owner clause is not judged for those."""
     V = []
     stats = collections.Counter()
     sigs = set()
@@ -150,35 +153,37 @@ def judge(tokens, views, obs, marks):
                             bus_errors[t.tid].append(k.get(4) or b"?")
                         else:
                             V.append(("bus-return-for-peer-message:%s" % t.kind(),
-                                      "the bus answered a message addressed to a peer with a METHOD_RETURN", t))
+                                      "the bus answered a message addressed to a peer with a METHOD_RETURN", t, v.idx))
                 continue
             tid = token_of(m, by_tid)
             if tid is None:
                 V.append(("unattributable-frame:%s" % TYPE_NAME.get(m.type, "other"),
                           "connection #%d read a frame that is neither bus-originated nor carries a token: type=%d fields=%r"
-                          % (v.idx, m.type, m.fields), None))
+                          % (v.idx, m.type, m.fields), None, v.idx))
                 continue
             t = by_tid[tid]
             deliveries[tid].append((v.idx, pos))
             stats["deliveries-checked"] += 1
             if t.destkind == "driver":
-                V.append(("driver-call-delivered-to-client", "a call addressed to org.freedesktop.DBus was delivered to #%d" % v.idx, t))
+                V.append(("driver-call-delivered-to-client", "a call addressed to org.freedesktop.DBus was delivered to #%d" % v.idx, t, v.idx))
                 continue
-            if t.dest not in owned:
+            if t.dest not in owned and v.idx in unreliable:
+                stats["ownership-unjudged:bus-signal-to-recipient-dropped"] += 1
+            elif t.dest not in owned:
                 who = "other-connection"
                 if t.dest in v.requested or t.dest == v.unique:
                     who = "not-owner-at-that-point"
                 V.append(("wrong-recipient:%s:%s" % (t.destkind, who),
                           "delivered to #%d (%s), which by its own NameAcquired/NameLost stream did not own %s at that point "
-                          "(it owned %r)" % (v.idx, v.unique.decode(), t.dest.decode("latin1"), sorted(owned)), t))
+                          "(it owned %r)" % (v.idx, v.unique.decode(), t.dest.decode("latin1"), sorted(owned)), t, v.idx))
             d = compare(t.msg, m)
             if d:
                 V.append(("altered:%s:%s" % (TYPE_NAME.get(t.mtype, "?"), ",".join(d)),
-                          "delivered frame differs from the sent one in %s" % ", ".join(d), t))
+                          "delivered frame differs from the sent one in %s" % ", ".join(d), t, v.idx))
             prev = last.get(t.sender)
             if prev is not None and prev > t.seq:
                 V.append(("out-of-order:%s" % t.destkind,
-                          "#%d read token seq %d of sender #%d after seq %d" % (v.idx, t.seq, t.sender, prev), t))
+                          "#%d read token seq %d of sender #%d after seq %d" % (v.idx, t.seq, t.sender, prev), t, v.idx))
             if prev is None or t.seq > prev:
                 last[t.sender] = t.seq
 
@@ -206,12 +211,12 @@ def judge(tokens, views, obs, marks):
             if sv.closed_round is not None:
                 t.outcome = "driver:sender-closed"
             elif len(reps) != 1:
-                V.append(("driver-call-replies:%d" % len(reps), "a call to the driver was answered %d times" % len(reps), t))
+                V.append(("driver-call-replies:%d" % len(reps), "a call to the driver was answered %d times" % len(reps), t, t.sender))
                 t.outcome = "driver:bad"
             else:
                 why = t.expect(reps[0]) if t.expect is not None else None
                 if why:
-                    V.append(("driver-answer-wrong:%s" % t.note.strip().split("=")[-1], "driver answered %s" % why, t))
+                    V.append(("driver-answer-wrong:%s" % t.note.strip().split("=")[-1], "driver answered %s" % why, t, t.sender))
                 t.outcome = "driver:answered"
             stats["outcome:" + t.outcome] += 1
             sigs.add(("driver", t.note.strip(), t.outcome))
@@ -222,7 +227,7 @@ def judge(tokens, views, obs, marks):
             recips = set(i for i, _ in dl)
             if len(dl) > 1:
                 V.append(("delivered-%d-times:%s:%s" % (len(dl), t.kind(), "one-connection" if len(recips) == 1 else "several-connections"),
-                          "token delivered %d times (to %s)" % (len(dl), sorted(recips)), t))
+                          "token delivered %d times (to %s)" % (len(dl), sorted(recips)), t, dl[0][0]))
             # NoReply is legitimate once the connection the call went to has closed its socket
             if any(view_of[i].closed_round is not None for i in recips):
                 noreply = [e for e in errs if e == NOREPLY]
@@ -231,13 +236,13 @@ def judge(tokens, views, obs, marks):
             if t.mtype == 1 and closed_in(t.dest, t.round, later=True) and errs == [NOREPLY]:
                 noreply, errs = errs, []
         if len(noreply) > 1:
-            V.append(("error-twice:%s" % t.kind(), "NoReply sent %d times for one call" % len(noreply), t))
+            V.append(("error-twice:%s" % t.kind(), "NoReply sent %d times for one call" % len(noreply), t, t.sender))
         if len(errs) > 1:
             V.append(("error-twice:%s" % t.kind(), "the bus sent %d errors (%s) for one message" % (
-                len(errs), b",".join(errs).decode("latin1")), t))
+                len(errs), b",".join(errs).decode("latin1")), t, t.sender))
         if dl and errs:
             V.append(("delivered-and-errored:%s" % t.kind(), "token was delivered to #%d AND answered with %s" % (
-                dl[0][0], errs[0].decode("latin1")), t))
+                dl[0][0], errs[0].decode("latin1")), t, t.sender))
         sender_closed = sv.closed_round is not None and sv.closed_round == t.round
         if dl:
             t.outcome = "delivered" + ("+noreply-after-close" if noreply else "")
@@ -256,10 +261,10 @@ def judge(tokens, views, obs, marks):
             t.outcome = "lost"
             if t.mtype == 1:
                 V.append(("call-neither-delivered-nor-errored:%s" % t.destkind,
-                          "a method call got no delivery and no error reply although no possible addressee closed its socket", t))
+                          "a method call got no delivery and no error reply although no possible addressee closed its socket", t, t.sender))
             else:
                 V.append(("lost:%s" % t.kind(), "a message whose destination had an owner throughout the round was neither "
-                          "delivered nor answered with an error, and nobody closed a socket", t))
+                          "delivered nor answered with an error, and nobody closed a socket", t, t.sender))
         stats["outcome:" + t.outcome] += 1
         stats["%s:%s" % (t.outcome.split(":")[0].split("+")[0], TYPE_NAME.get(t.mtype))] += 1
         raced = changes.get(t.dest, {}).get(t.round, 0)
@@ -287,5 +292,5 @@ def judge(tokens, views, obs, marks):
             n = len(bus_replies[v.idx].get(rs, []))
             stats["driver-calls-counted"] += 1
             if n != 1:
-                V.append(("driver-call-replies:%d" % n, "serial %d of #%d (a call to the driver) was answered %d times" % (rs, v.idx, n), None))
+                V.append(("driver-call-replies:%d" % n, "serial %d of #%d (a call to the driver) was answered %d times" % (rs, v.idx, n), None, v.idx))
     return V, stats, sigs
